@@ -38,6 +38,8 @@ WITNESSES = [
     ("doc = *(*INT)\n", "x", "nullable repetition body: *(*INT)"),
     ("doc = +(?INT ?IDENT)\n", "", "nullable repetition body: +(?INT ?IDENT)"),
     ("doc = ?INT doc IDENT\n", "x", "hidden left recursion behind an optional: doc = ?INT doc IDENT"),
+    # a RetProc raising a runtime (Dyn) error for a rule that matched no token: gRepeat0 keeps going at the same position
+    ("doc = *(a ++ INT)\na = ?IDENT\n", "1", "RetProc Dyn error on an empty match inside *R: doc = *(a ++ INT), a = ?IDENT, RetProc(a) panics", "a=boom"),
 ]
 # compile-time rejections that must stay rejections (left recursion crossing a Choice)
 REJECTED = [("doc = a | INT\na = ?INT doc\n", "x"), ("doc = doc | INT\n", "1"), ("doc = INT | doc \"+\"\n", "1")]
@@ -135,21 +137,23 @@ def run(ctx):
     impl = ctx.harness("tplm")
     model = ctx.model("tplm")
     wit = []
-    for g, t, what in WITNESSES:
+    for w in WITNESSES:
+        g, t, what = w[:3]
+        wrps = w[3] if len(w) > 3 else "-"
         gb, tb = g.encode(), t.encode()
-        line = "%s\t%s\n" % (gb.hex(), tb.hex())
+        line = "%s\t%s\t%s\n" % (gb.hex(), tb.hex(), wrps)
         rc, sc = ctx.run([impl, "-mode", "scan"], input=line)
         rc, mo = ctx.run([model], input=sc)
         mres = mo.split("\n")[0].split("\t")[0]
         rc, out = ctx.run([impl, "-mode", "match", "-watchdog", "700ms"], input=line, timeout=20, mem_kb=4000000)
         first = (out.split("\n")[0] or "").split("\t")[0]
         ires = "FUEL" if (first.startswith("HANG") or rc not in (0,)) else first
-        wit.append({"grammar": g, "input": t, "model": mres, "impl": first or "CRASH(rc=%d)" % rc})
+        wit.append({"grammar": g, "input": t, "retprocs": wrps, "model": mres, "impl": first or "CRASH(rc=%d)" % rc})
         if mres != ires:
             ctx.broken("correspondence(non-termination witness)", "grammar=%r input=%r model=%s impl=%s rc=%d" % (g, t, mres, first, rc))
         if ires == "FUEL":
-            ctx.fail(tplm.key_of(gb, tb), "Match(%r, %r) does not terminate: %s" % (g, t, what),
-                     {"grammar": g, "input": t, "impl": first or "crash rc=%d" % rc, "what": what})
+            ctx.fail(tplm.key_of(gb, tb, wrps), "Match(%r, %r, retprocs=%s) does not terminate: %s" % (g, t, wrps, what),
+                     {"grammar": g, "input": t, "retprocs": wrps, "impl": first or "crash rc=%d" % rc, "what": what})
     ctx.cover(evaluations=len(idx) + len(WITNESSES), distinct_nontrivial=len(set(cases[i] for i in idx if flags[i] in ("P", "N"))), retproc_pairs=nrp,
               samples=[{"grammar": cases[i][0].decode("utf-8", "replace"), "input": cases[i][1].decode("utf-8", "replace"),
                         "impl": (rows[i] or ["(not run)"])[0][:120], "certificate": flags[i]} for i in (0, 5, 100, len(cases) - 1)] + wit[:2],
